@@ -5,7 +5,7 @@ cd "$(dirname "$0")"
 export GOFLAGS=-mod=mod GOPROXY=off GOTOOLCHAIN=auto
 unset GOSUMDB
 mkdir -p build evidence
-(cd lean && lake build Sth driver Sth.Obligations.C16 Sth.Obligations.Order)
+(cd lean && lake build Sth driver Sth.Obligations.C16 Sth.Obligations.FactsC03 Sth.Obligations.FactsC05 Sth.Obligations.FactsC12 Sth.Obligations.FactsC14 Sth.Obligations.FactsC17)
 cp /repo/go.sum go/go.sum
 (cd go && go build -tags verif -o ../build/harness .)
 (cd go/cmd/extract && go build -o ../../../build/extract .)
